@@ -44,7 +44,7 @@ Theorem refusal_is_noop h o :
   completes o = true -> is_refusal (o_res (step g h o)) = true -> o_holder (step g h o) = h.
 Proof.
   unfold step. destruct (step_core g h o) as [[[r tr] p] h'] eqn:E. cbn [o_res o_holder].
-  intros Hc Hr. destruct o as [s c|c| |e pl orc b|e pl orc b|x v|x v|x v|s| |]; cbn [completes] in Hc.
+  intros Hc Hr. destruct o as [s c|c| |e pl orc b|e pl orc b|x v|x v|x v|s| | |e pl]; cbn [completes] in Hc.
   - cbn [step_core] in E. destruct (typed_new g s c); inversion E; subst; [discriminate|reflexivity].
   - cbn [step_core] in E. destruct (gr_dyn g); [destruct (dyn_new g g0 c)|]; inversion E; subst; try discriminate; reflexivity.
   - cbn [step_core] in E. destruct (gr_dyn g); [destruct (dyn_new g g0 0)|]; inversion E; subst; try discriminate; reflexivity.
@@ -85,6 +85,10 @@ Proof.
   - destruct h as [|tm|dd]; cbn [step_core] in E; try (inversion E; subst; reflexivity).
     destruct (gr_dyn g); inversion E; subst; [discriminate|reflexivity].
   - cbn [step_core] in E. inversion E; subst. discriminate.
+  - destruct h as [|tm|dd]; cbn [step_core] in E; try (inversion E; subst; reflexivity).
+    + destruct (methods_of g (tm_state tm) (to_snake_case e)) as [|gm [|gm2 rr]]; try (inversion E; subst; reflexivity).
+      destruct (gm_async gm); inversion E; subst; [discriminate|reflexivity].
+    + destruct (gr_dyn g); [destruct (gir_async g)|]; inversion E; subst; reflexivity.
 Qed.
 
 (* hence the rest of the history is observed exactly as if the refused call had not been made *)
